@@ -466,6 +466,9 @@ class Engine:
             facts.extend(c2.facts[len(base_facts):])
             for (ln, lc, lpc, lfacts) in c2.lemmas:
                 self.pending_lemmas.append((ln, lc, list(N.GLOBAL_FACTS) + lfacts + lpc))
+            for ent in c2.side:
+                # obligations raised inside the clause (e.g. the precondition of a lemma applied there)
+                self.pending_lemmas.append(('side.' + ent[0], ent[1], list(N.GLOBAL_FACTS) + list(c2.facts) + list(ent[2])))
             goals.append(z3.Implies(z3.And(*extra), out[1]) if extra else out[1])
         I.ctx = ctx
         return (z3.And(*goals) if len(goals) != 1 else goals[0]), facts
